@@ -74,7 +74,7 @@ def suffix_circuit():
 
 
 def all_cases(ctx):
-    cs = [(("strip", "suffix-pins"), ("strip", suffix_circuit(), None))]
+    cs = [(("strip", "suffix-pins"), ("strip", suffix_circuit(), None)), (("strip", "dotted-pins"), ("strip", F.f_bb_dotted()[0][1], None))]
     ch = children(ctx)
     nmaps = 3 if ctx.quick else 6
     for pn, p in parents():
@@ -212,7 +212,7 @@ def run(ctx):
         if pspec == "strip":
             spec = c1
             ctx.sample({"case": cid, "circuit": spec})
-            for ign in (None, "CK", ["CK"], ["Q"], ["D", "Q"], ["SCK", "NQ"], ["CK", "SCK", "Q"], ["D"], ["SD", "NQ", "CK"]):
+            for ign in (None, "CK", ["CK"], ["Q"], ["D", "Q"], ["SCK", "NQ"], ["CK", "SCK", "Q"], ["D"], ["SD", "NQ", "CK"], ["en"], ["d"], ["q", "en"]):
                 r, e = call(tx.strip_blackboxes, build(spec), ign)
                 det = {"case": cid, "circuit": spec, "ignore_pins": ign}
                 if e is not None:
